@@ -241,7 +241,7 @@ mutual
     | [] => by intro _ s A; simp [eraseList, mergeInto, writableList]
     | k :: ks => by
       intro hv s A
-      obtain ⟨h1, h2⟩ := validList_cons b k ks hv
+      obtain ⟨h1, h2⟩ := fc_validList_cons b k ks hv
       simp only [eraseList, mergeInto, writableList]
       rw [writableList_merge env b ks h2 s _]
       have step : writableList env s (snocMerge A (mergeAdjacentText (erase k))) =
